@@ -63,6 +63,33 @@ Proof.
   rewrite forallb_forall in F. auto.
 Qed.
 
+Lemma term_eqb_eq a b : term_eqb a b = true <-> a = b.
+Proof.
+  destruct a, b; cbn [term_eqb]; try (split; [discriminate|discriminate]).
+  - rewrite name_eqb_eq. split; [intros ->; reflexivity | intros [= ->]; reflexivity].
+  - rewrite Nat.eqb_eq. split; [intros ->; reflexivity | intros [= ->]; reflexivity].
+  - rewrite Nat.eqb_eq. split; [intros ->; reflexivity | intros [= ->]; reflexivity].
+  - split; reflexivity.
+Qed.
+
+Lemma apred_eqb_eq p q : apred_eqb p q = true <-> p = q.
+Proof.
+  destruct p, q; cbn [apred_eqb]; try (split; [discriminate|discriminate]); try (split; reflexivity).
+  rewrite Nat.eqb_eq. split; [intros ->; reflexivity | intros [= ->]; reflexivity].
+Qed.
+
+(* the executable membership test is membership *)
+Lemma tr_has_In tr x : tr_has tr x = true <-> In x tr.
+Proof.
+  unfold tr_has. rewrite existsb_exists. split.
+  - intros ([[s p] o] & Hy & E). destruct x as [[s' p'] o']. unfold atriple_eqb in E.
+    cbn [fst snd] in E. apply andb_true_iff in E as [E E3]. apply andb_true_iff in E as [E1 E2].
+    apply term_eqb_eq in E1, E3. apply apred_eqb_eq in E2. now subst.
+  - intros Hx. exists x. split; [exact Hx|]. destruct x as [[s p] o]. unfold atriple_eqb.
+    cbn [fst snd]. rewrite !andb_true_iff. repeat split;
+      [apply term_eqb_eq | apply apred_eqb_eq | apply term_eqb_eq]; reflexivity.
+Qed.
+
 Definition is_descr (x : atriple) : bool :=
   match snd (fst x) with PSubClassOf | PParam _ => true | _ => false end.
 
